@@ -62,6 +62,18 @@ def b_new(I, T, ty, name, via='ctor'):
     return I.call('builder::GenericPurlBuilder::<%s>::new::<&str>' % tytext(T), [ty, RStr(name)])
 
 
+PARSED_BASE = '/ns/n@1?a=1&c=3#s'
+PARSED_STEPS = [('with_namespace', 'ns'), ('with_version', '1'), ('with_qualifier', 'a', '1'), ('with_qualifier', 'c', '3'), ('with_subpath', 's')]
+
+
+def b_parsed(I, T, type_bytes):
+    """a builder obtained from a parsed PURL (`pkg:<type>/ns/n@1?a=1&c=3#s`).into_builder(): the entry point of edit-and-rebuild"""
+    r = from_str(I, T, list(b'pkg:') + list(type_bytes) + list(PARSED_BASE.encode()))
+    if r.variant != 'Ok':
+        raise Unsupported('the base PURL of a parsed-then-edited script does not parse')
+    return I.call('GenericPurl::<%s>::into_builder' % tytext(T), [r.fields[0]])
+
+
 def p_new(I, T, ty, name):
     """GenericPurl::new: the one-call form of builder(..).build()"""
     return I.call('GenericPurl::<%s>::new::<&str>' % tytext(T), [ty, RStr(name)])
@@ -110,7 +122,7 @@ def gen_build(L, T, type_bytes, name, steps, via='ctor'):
             L.expect_native(req, {'err': nm})
             return None, 'rejected:' + nm
         return r.fields[0], 'built'
-    b = b_new(I, T, mk_type(I, T, type_bytes), name, via)
+    b = b_parsed(I, T, type_bytes) if via == 'parsed' else b_new(I, T, mk_type(I, T, type_bytes), name, via)
     for m, *args in steps:
         b = b_call(I, T, b, m, *args)
         if m == 'with_qualifier':
